@@ -262,3 +262,35 @@ def writers_before_readers(ctx, rep, rid):
         ok = bool(w) and bool(r) and all(any(b.dominates(x.bb, y.bb) and x.bb != y.bb for x in w) for y in r)
         rep.ob(rid, fn, 'initialize_writing before initialize_reading', ok, r[0].where() if r else None, None if ok else
                'the readers are opened before the writers have created the files: after a crash between the creation of the log file and of the index file the segment cannot be loaded any more')
+
+
+def config_flags_by_name(ctx, rep, rid, prefixes=('server::channels::commands::', 'server::streaming::')):
+    """an argument that is read straight from the configuration (`….config.<section>.<flag>`) and handed to a boolean
+    parameter goes to the parameter of its own name (`delete_oldest_segments` is not fed from `archive_expired`)"""
+    import re
+    from mir import canon
+    from lib import is_user_call
+    n = 0
+    for d in sorted(ctx.facts.body_defs()):
+        if not d.lstrip('<').startswith(prefixes) or '__CALLSITE' in d:
+            continue
+        b = ctx.body(d)
+        for c in b.calls:
+            if not is_user_call(c):
+                continue
+            r = ctx.facts.fns.get(c.name)
+            if not r or not r.get('pnames') or len(r['pnames']) != len(c.args):
+                continue
+            for i, p in enumerate(r['pnames']):
+                if r['params'][i] != 'bool' or not p:
+                    continue
+                form = canon(b.pexpr_operand(c.args[i], 0, frozenset(), (c.bb, 't')), 0, 1)
+                m = re.search(r'(?:^|\.)config\.(?:\w+\.)*(\w+)$', form)
+                if not m:
+                    continue
+                n += 1
+                import argsel
+                ok = argsel._same(m.group(1), p)      # same words: `enforce_fsync` for `fsync`
+                rep.ob(rid, ctx.user_fn_of(d), '%s(%s = %s)' % (c.name.split('::')[-1], p, form), ok, c.where(), None if ok else
+                       'the configuration flag `%s` is handed to the parameter `%s` of %s: the two settings are independent, the function now follows the wrong one' % (form, p, c.name))
+    return n
